@@ -238,7 +238,7 @@ CHECKS.update({
 CHECKS.update({
     "C27": pool_check("Pipeline delivers every item through every stage exactly once",
                       "Pipelines of 1-5 stages (single-stage, generator, filter-capable and plain transforms, sink), written with stage(f, limit) for limits 1, 2, 3, pool+1, unlimited and as plain function objects (serial), 0-12 items, filtering by id, pools of 0-3 threads; heap-owning items that record how many stages they passed. At pipeline()'s return every generated id was seen exactly once by every stage up to the one that filtered it (or the sink) and by none after, each stage received its predecessor's output, no body is running or starts afterwards; all item objects are destroyed by the time the pool is gone.",
-                      [e1("pipe", "pipe")], "§4 C27/C28",
+                      [e1("pipe", "pipe"), e1("pipe", "handoff")], "§4 C27/C28",
                       technique="PBT over pipeline shapes (stage count, limits, filters, item count, pool size) under generated dsched schedules; oracle = per-(stage,item) ledger + hop counter carried by each item"),
     "C28": pool_check("Pipeline stages never exceed their concurrency limit",
                       "Same generated pipelines as C27; every stage body (generator included) increments a per-stage counter around preemption points; the maximum observed must not exceed the limit given to stage(), and 1 for stages passed as plain function objects.",
